@@ -32,7 +32,16 @@ func VH_C03_api() {
 	}
 	c := vhNewRich(2, field)
 	sc := vhRichStored(c)
-	switch vChoice("then", 5) {
+	switch vChoice("then", 6) {
+	case 5: // update a changing nothing but the unique field, onto b's value: always refused
+		upd := *a
+		if field == "K" {
+			upd.K = b.K
+		} else {
+			upd.Q = b.Q
+		}
+		err := db.InsertOrUpdate(&upd)
+		vAssert("C03.api.update_onto_other_refused", IsUnique(err))
 	case 0: // insert a third object
 		err := db.InsertOrUpdate(c)
 		vAssert("C03.api.insert_iff", vIff(err != nil, vOr(same(&sc, &sa), same(&sc, &sb))))
@@ -89,4 +98,42 @@ func VH_C03_api() {
 			vAssert("C03.api.pairwise_distinct", vNot(same(&rows[i].o, &rows[j].o)))
 		}
 	}
+}
+
+// VH_C03_maporder: the uniqueness verdict of an update does not depend
+// on the order in which the field indexes are visited (Go map order).
+type vTwoU struct {
+	Item
+	A int64  `sod:"index"`
+	K int64  `sod:"unique"`
+	B int64  `sod:"index"`
+	Q string `sod:"unique"`
+}
+
+func VH_C03_maporder() {
+	root := vTempDir()
+	db := Open(root)
+	LowercaseNames = false
+	vAssert("C03.maporder.create", db.Create(&vTwoU{}, DefaultSchema) == nil)
+	a := &vTwoU{A: 1, K: vInt64("Ka"), B: 1, Q: "qa"}
+	b := &vTwoU{A: 2, K: vInt64("Kb"), B: 2, Q: "qb"}
+	if db.InsertOrUpdate(a) != nil || db.InsertOrUpdate(b) != nil {
+		vAssume(false)
+	}
+	vMapOrder(true)
+	upd := *a
+	which := vChoice("field", 2)
+	if which == 0 {
+		upd.K = vInt64("Kn")
+	} else {
+		upd.Q = []string{"qb", "qc"}[vChoice("q", 2)]
+	}
+	err := db.InsertOrUpdate(&upd)
+	vMapOrder(false)
+	conflict := upd.K == b.K
+	if which == 1 {
+		conflict = upd.Q == b.Q
+	}
+	vAssert("C03.maporder.iff", vIff(IsUnique(err), conflict))
+	vAssert("C03.maporder.no_other_error", err == nil || IsUnique(err))
 }
